@@ -207,7 +207,8 @@ def run(ctx):
     for it in range(ctx.budget(400, 5000)):
         cls = rng.choice(['min', 'max', 'c'])
         m, n, o = rng.choice(METHODS), rng.randint(1, 10), rng.randint(1, 10)
-        x = rng.choice([0.0, 1.0, rng.uniform(-100, 100), 1e-3])
+        # x as a float, an integer-typed scalar or (below) an integer / float array: the type of x must not matter
+        x = rng.choice([0.0, 1.0, rng.uniform(-100, 100), 1e-3, 3, -7, 0, 12])
         opts = {}
         if rng.random() < 0.5:
             opts['base_step'] = rng.choice([1.0, 0.5, 1e-4, 3.0])
@@ -218,7 +219,7 @@ def run(ctx):
         if rng.random() < 0.3:
             opts['offset'] = rng.randint(-3, 3)
         if rng.random() < 0.3:
-            opts['step_nom'] = rng.choice([1.0, 2.5])
+            opts['step_nom'] = rng.choice([1.0, 2.5, 0.5, 1.75])
         if rng.random() < 0.3:
             opts['use_exact_steps'] = rng.random() < 0.5
         if cls == 'c':
@@ -230,7 +231,8 @@ def run(ctx):
         key = (cls, m, n, o, x, tuple(sorted((k, str(v)) for k, v in opts.items())))
         try:
             g = G(**opts)
-            steps = [complex(np.asarray(s).ravel()[0]) if cls == 'c' else float(np.asarray(s).ravel()[0]) for s in g(np.asarray(x), m, n, o)]
+            xarg = np.asarray(x) if rng.random() < 0.7 else np.asarray([x, x])       # keeps the integer dtype of an integer x
+            steps = [complex(np.asarray(s).ravel()[0]) if cls == 'c' else float(np.asarray(s).ravel()[0]) for s in g(xarg, m, n, o)]
         except Exception as ex:
             ctx.tried(key)
             ctx.violation('step generator raised %r' % ex, cls=cls, opts=str(opts), method=m, n=n, order=o, x=x)
@@ -280,7 +282,7 @@ def run(ctx):
         else:
             want = [b * ratio ** (i + off) for i in range(cnt - 1, -1, -1)]
         want = [w for w in want if abs(w) > 0]
-        rep = dict(cls=cls, opts=str(opts), method=m, n=n, order=o, x=x)
+        rep = dict(cls=cls, opts=str(opts), method=m, n=n, order=o, x=x, x_type=type(x).__name__)
         if len(steps) != len(want):
             ctx.violation('number of generated steps differs from the documented count', got=len(steps), documented=len(want), **rep)
             continue
